@@ -14,13 +14,26 @@ import "go/types"
 type gwWriter struct {
 	s       *StreamObj
 	pending []Value
+	open    bool // a non-final fragment of the current message has been sent
 }
 
 type gwReader struct {
 	s     *StreamObj
-	frame int // frames entered so far
-	pos   int // next unread message of the current frame
-	end   int // end of the current frame
+	frame int  // frames entered so far
+	pos   int  // next unread message of the current frame
+	end   int  // end of the current frame
+	fin   bool // the current frame is the last one of its message
+}
+
+// enter moves the reader to frame i.
+func (r *gwReader) enter(i int) {
+	r.pos = 0
+	if i > 0 {
+		r.pos = r.s.frameEnds[i-1]
+	}
+	r.end = r.s.frameEnds[i]
+	r.fin = !r.s.frameOpen[i]
+	r.frame = i + 1
 }
 
 type gwDecoder struct {
@@ -66,9 +79,13 @@ func init() {
 		if w.s.closed {
 			return m.newErrorValue("io: read/write on closed pipe")
 		}
+		// what is buffered goes out as the final frame of the message (an empty one if an oversized
+		// write has already pushed everything out in a non-final fragment)
 		w.s.msgs = append(w.s.msgs, w.pending...)
 		w.pending = nil
 		w.s.frameEnds = append(w.s.frameEnds, len(w.s.msgs))
+		w.s.frameOpen = append(w.s.frameOpen, false)
+		w.open = false
 		return IfaceVal{}
 	})
 	reg("(*"+wu+"Reader).NextFrame", func(m *Machine, g *Goroutine, c *callCtx) (Value, stepStatus) {
@@ -86,13 +103,27 @@ func init() {
 			return nil, stBlocked
 		}
 		g.waitFn = nil
-		r.pos = 0
-		if r.frame > 0 {
-			r.pos = r.s.frameEnds[r.frame-1]
-		}
-		r.end = r.s.frameEnds[r.frame]
-		r.frame++
+		r.enter(r.frame)
 		return TupleVal{hdr, IfaceVal{}}, stNext
+	})
+	reg("(*"+wu+"Reader).Discard", func(m *Machine, g *Goroutine, c *callCtx) (Value, stepStatus) {
+		r := m.nativeOf(c.args[0], "Reader.Discard").(*gwReader)
+		for {
+			r.pos = r.end // what is left of this frame
+			if r.fin || r.frame == 0 {
+				g.waitFn = nil
+				return IfaceVal{}, stNext
+			}
+			if r.frame >= len(r.s.frameEnds) {
+				if r.s.closed {
+					g.waitFn = nil
+					return m.newErrorValue("unexpected EOF"), stNext
+				}
+				g.waitFn = func() bool { return r.frame < len(r.s.frameEnds) || r.s.closed }
+				return nil, stBlocked
+			}
+			r.enter(r.frame)
+		}
 	})
 	prevEncode := icTable["(*encoding/json.Encoder).Encode"]
 	reg("(*encoding/json.Encoder).Encode", func(m *Machine, g *Goroutine, c *callCtx) (Value, stepStatus) {
@@ -100,6 +131,20 @@ func init() {
 		inner, _ := m.ioResolve(e.w, "Writer")
 		if w, ok := m.gwNative(inner).(*gwWriter); ok {
 			w.pending = append(w.pending, m.deepCopy(c.args[1], map[*Obj]*Obj{}))
+			// the encoded value either fits the Writer's buffer (4096 bytes by default) or not: if
+			// not, the Writer pushes it out at once as a NON-final fragment
+			big := mkVar(m.uniqueName("exceeds-writer-buffer"), SBool, nil, nil)
+			m.declare(big)
+			if m.cfg.Params["gobwas_large"] == 1 && m.branch(big) {
+				if w.s.closed {
+					return m.newErrorValue("io: read/write on closed pipe"), stNext
+				}
+				w.s.msgs = append(w.s.msgs, w.pending...)
+				w.pending = nil
+				w.s.frameEnds = append(w.s.frameEnds, len(w.s.msgs))
+				w.s.frameOpen = append(w.s.frameOpen, true)
+				w.open = true
+			}
 			return IfaceVal{}, stNext
 		}
 		return prevEncode(m, g, c)
@@ -121,11 +166,26 @@ func init() {
 		if d.dead {
 			return m.newErrorValue("EOF"), stNext
 		}
-		if len(d.buf) == 0 {
+		for len(d.buf) == 0 {
 			for d.r.pos < d.r.end {
 				d.buf = append(d.buf, d.r.pos)
 				d.r.pos++
 			}
+			if len(d.buf) > 0 || d.r.fin {
+				break
+			}
+			// the frame is a non-final fragment: Read goes on with the continuation frame
+			if d.r.frame >= len(d.r.s.frameEnds) {
+				if d.r.s.closed {
+					d.dead = true
+					return m.newErrorValue("unexpected EOF"), stNext
+				}
+				r := d.r
+				g.waitFn = func() bool { return r.frame < len(r.s.frameEnds) || r.s.closed }
+				return nil, stBlocked
+			}
+			g.waitFn = nil
+			d.r.enter(d.r.frame)
 		}
 		if len(d.buf) == 0 {
 			d.dead = true // the read error sticks (json.Decoder keeps it)
